@@ -34,7 +34,7 @@ def build(rec, i):
     n = rec['names']
     return dict(board_id=n['board_id'], west_player=n['west'], north_player=n['north'], east_player=n['east'], south_player=n['south'],
                 dealer=Player(rec['dealer']), deal=Hands(*[{card_of(c) for c in rec['deal'][str(p)]} for p in range(1, 5)]),
-                scoring=Scoring.IMP, bid_history=[Bid(b) for b in rec['auction']], contract=contract, play_history=play,
+                scoring=Scoring[rec.get('scoring', 'IMP')], bid_history=[Bid(b) for b in rec['auction']], contract=contract, play_history=play,
                 taken_trick_num=rec['tricks'], scores={Pair.NS: rec['scores'][0], Pair.EW: rec['scores'][1]}, dda=dda)
 
 
@@ -114,7 +114,7 @@ def replay(c):
     for i, (a, log, bs) in enumerate(zip(args, logs, sets)):
         con = a['contract']
         want = dict(board_id=a['board_id'], dealer=a['dealer'], vul=con.vul, hands=a['deal'], bid_history=a['bid_history'],
-                    declarer=con.declarer, taken_trick=a['taken_trick_num'], dda=a['dda'], score_type='IMP', scores=a['scores'],
+                    declarer=con.declarer, taken_trick=a['taken_trick_num'], dda=a['dda'], score_type=a['scoring'].value, scores=a['scores'],
                     players={Player.N: a['north_player'], Player.E: a['east_player'], Player.S: a['south_player'], Player.W: a['west_player']},
                     play_history=None if a['play_history'] is None else list(a['play_history'].history))
         for k, v in want.items():
